@@ -540,7 +540,8 @@ def run(ctx):
     ctx.floor("parse_calls", 1)
     ctx.floor("section_reads", 25)
     if "simulated_orders" in ctx.counts or not ctx.findings:
-        ctx.floor("simulated_orders", 12)   # skipped only when the load order itself is already reported as broken
+        ctx.floor("simulated_orders", 18)   # skipped only when the load order itself is already reported as broken
+        ctx.floor("simulated_histories", 10)
     ctx.assume("TypeMapItem(x) raises ValueError for a type code outside the enumeration, so every MapItem carries one of the 21 members")
     ctx.assume("a map list names every type at most once (format requirement); duplicates are not decided (sorted() is stable)")
     positive_control(ctx)
@@ -717,11 +718,27 @@ class _SimInterp(DexInterp):
     """executes MapList.__init__ on a concrete list of symbolic map entries: nested defs, sorted/list.sort with a key,
     list(), bound __getitem__ are evaluated; MapItem.parse and ClassManager calls are recorded"""
 
-    def __init__(self, *a, order=None, enum_cls=None, order_func=None, parse_name="parse", **k):
+    def __init__(self, *a, order=None, enum_cls=None, order_func=None, parse_name="parse", file_size=None, class_state=None, **k):
         super().__init__(*a, **k)
         self.order, self.enum_cls, self.order_func, self.parse_name = order, enum_cls, order_func, parse_name
+        self.file_size = file_size
+        self.class_state = class_state if class_state is not None else {}   # (class, attr) -> mutable class-level object (persists)
         self.trace = []
         self.entries = []
+
+    def _stream_root(self, e, env, func):
+        """buff / buff.raw / buff.raw.getbuffer() / buff.getbuffer() ... -> the StreamV or None"""
+        while True:
+            if isinstance(e, ast.Call) and isinstance(e.func, ast.Attribute) and e.func.attr in ("getbuffer", "getvalue") and not e.args:
+                e = e.func.value
+            elif isinstance(e, ast.Attribute) and e.attr in ("raw", "buffer"):
+                e = e.value
+            else:
+                break
+        if isinstance(e, ast.Name):
+            v = self.eval(e, env, func)
+            return v if isinstance(v, StreamV) else None
+        return None
 
     def exec_stmt(self, s, env, func):
         if isinstance(s, ast.FunctionDef):
@@ -759,6 +776,26 @@ class _SimInterp(DexInterp):
             base = self.eval(e.value, env, func)
             if isinstance(base, (list, tuple, dict)):
                 return _GetItem(base)
+        if e.attr == "nbytes" and self.file_size is not None and self._stream_root(e.value, env, func) is not None:
+            return self.file_size
+        if isinstance(e.value, ast.Name):
+            base = self.eval(e.value, env, func)
+            cls = base.cls if isinstance(base, Obj) else base.obj if isinstance(base, Ref) and base.kind == "class" else None
+            if cls is not None and not (isinstance(base, Obj) and self.mangle(e.attr, func) in base.attrs) and cls.lookup(e.attr) is None:
+                init = cls.lookup_attr(e.attr)
+                mutable = isinstance(init, (ast.Dict, ast.List, ast.Set)) or (
+                    isinstance(init, ast.Call) and isinstance(init.func, ast.Name) and init.func.id in ("dict", "list", "set", "OrderedDict", "defaultdict"))
+                if mutable:
+                    holder = next((c for c in cls.mro() if e.attr in c.attrs), cls)
+                    key = (holder.name, e.attr)
+                    if key not in self.class_state:
+                        if isinstance(init, ast.Call) and init.args:
+                            raise AnalysisError("class-level container %s.%s with an initialiser outside the fragment" % key)
+                        self.class_state[key] = {} if isinstance(init, ast.Dict) or (isinstance(init, ast.Call) and init.func.id != "list" and init.func.id != "set") \
+                            else [] if isinstance(init, ast.List) or (isinstance(init, ast.Call) and init.func.id == "list") else set()
+                        if isinstance(init, (ast.Dict, ast.List, ast.Set)) and (getattr(init, "keys", None) or getattr(init, "elts", None)):
+                            raise AnalysisError("class-level container %s.%s is not empty initially (outside the fragment)" % key)
+                    return self.class_state[key]
         return super().e_Attribute(e, env, func)
 
     def _sort(self, seq, kwargs, e, env, func):
@@ -785,9 +822,37 @@ class _SimInterp(DexInterp):
                     return r
         if name in ("list", "tuple") and not isinstance(callee, Ref) and len(args) == 1 and isinstance(args[0], (list, tuple, range)):
             return list(args[0]) if name == "list" else tuple(args[0])
+        if name in ("frozenset", "set") and not isinstance(callee, Ref) and len(args) <= 1:
+            seq = self.concrete_iter(args[0]) if args else []
+            if seq is not None:
+                try:
+                    return frozenset(seq) if name == "frozenset" else set(seq)
+                except TypeError:
+                    pass
         return super()._h_call(it, name, callee, args, kwargs, e, func)
 
     def _h_method(self, it, recv, name, args, kwargs, e, func):
+        if isinstance(recv, StreamV) and name == "seek" and len(args) == 2 and self.file_size is not None:
+            wh = args[1].value() if isinstance(args[1], Bits) and args[1].is_const() else args[1]
+            off = args[0].value() if isinstance(args[0], Bits) and args[0].is_const() else args[0]
+            if wh == 2 and isinstance(off, int):
+                recv.pos = self.file_size + off
+                recv.log.append(("seek", recv.pos))
+                return recv.pos
+        if isinstance(recv, dict) and name in ("get", "pop", "setdefault") and args:
+            k_ = args[0]
+            try:
+                hash(k_)
+                if name == "get":
+                    return recv.get(k_, args[1] if len(args) > 1 else None)
+                if name == "setdefault":
+                    return recv.setdefault(k_, args[1] if len(args) > 1 else None)
+                if len(args) > 1:
+                    return recv.pop(k_, args[1])
+                if k_ in recv:
+                    return recv.pop(k_)
+            except TypeError:
+                pass
         if isinstance(recv, list) and name == "sort" and not args:
             r = self._sort(list(recv), kwargs, e, None, func)
             if r is not None:
@@ -845,8 +910,9 @@ def _norm_value(v, entry_start, base):
 
 
 def simulate_map_list(ctx, repo, m, folder, cmi, order):
-    """MapList.__init__ is executed abstractly on map lists of three entries of distinct types, in all six orders.
-    -> name of the attribute that holds the entry list"""
+    """MapList.__init__ is executed abstractly on map lists of three entries of distinct types, in all six orders, for a
+    file that ends right behind the map list and for a larger file, and -- on shared class-level state -- one order after
+    another.  -> name of the attribute that holds the entry list"""
     import itertools
     ml = m.cls("MapList")
     init = ml.lookup("__init__")
@@ -862,85 +928,121 @@ def simulate_map_list(ctx, repo, m, folder, cmi, order):
     picks = [by_rank[0][1], by_rank[len(by_rank) // 2][1], by_rank[-1][1]], [by_rank[1][1], by_rank[len(by_rank) // 3][1], by_rank[-2][1]]
     lst_attrs = set()
     snapshots = {}
-    n_runs = 0
-    for triple in picks:
+    end_of_map = 4 + 3 * stride
+
+    def construct(perm, file_size, state):
+        asg0 = {}
+        for i in range(32):
+            asg0[("s", i // 8, i % 8)] = (3 >> i) & 1
+        for k, t in enumerate(perm):
+            for i in range(16):
+                asg0[("s", 4 + stride * k + i // 8, i % 8)] = (int(t) >> i) & 1
+
+        def run(asg):
+            it = _SimInterp(repo, folder, asg={**asg0, **asg}, construct=lambda c: c.name == "MapItem", inline_module=m,
+                            order=order, enum_cls=cmi.enum_cls, order_func=ford.name, parse_name=parse.name,
+                            file_size=file_size, class_state=state)
+            st = StreamV("buff", index=0)
+            o = Obj(ml, "maplist")
+            args = []
+            for p in init.params()[1:]:
+                args.append(Sym("cm") if p in ("cm",) else st if p in ("buff", "buf") else 0 if p in ("off", "offset") else Sym("param", p))
+            it.call_function(init, args, recv=o)
+            return it, o, st
+
+        out = []
+        for asg, r in explore(run, max_paths=64):
+            if isinstance(r, Raised):
+                raise AnalysisError("MapList.__init__ raises on a three-entry map list (%s): %s" % ([names[int(t)] for t in perm], r))
+            out.append(r)
+        return out
+
+    def judge(res, perm, expected, scenario, isolation=True):
+        it, o, st = res
+        pn = [names[int(t)] for t in perm]
+        inst = "map list order %s%s" % (pn, scenario)
+        entries = [x for c, x, a in it.new_log if c.name == "MapItem"]
+        symbolic = any(ev[0] == "symbolic-loop" and ev[1][0].startswith("MapList.") for ev in it.events)
+        if len(entries) != 3:
+            if symbolic or len(entries) > 3:
+                raise AnalysisError("MapList.__init__ builds %d MapItems for a map list of three entries (shape outside the fragment)" % len(entries))
+            ctx.check("parse-order", inst, False, init, "map entries read for map order %s%s" % ("/".join(pn), scenario),
+                      "of the three entries %s of a well-formed map list%s only %d are read (%s): which section is lost depends on the order of the map" % (
+                          pn, scenario, len(entries), pn[: len(entries)]))
+            return
+        start = {id(x): 4 + stride * k for k, x in enumerate(entries)}
+        tname = {}
+        for x in entries:
+            ty = [v for v in x.attrs.values() if isinstance(v, EnumVal) and v.enum == cmi.enum_cls.name]
+            if len(ty) != 1:
+                raise AnalysisError("MapItem: the attribute holding the entry's type was not identified in the simulation")
+            tname[id(x)] = ty[0].member
+        for a_, v_ in o.attrs.items():
+            if isinstance(v_, list) and len(v_) == 3 and all(any(x is y for y in entries) for x in v_):
+                lst_attrs.add(a_)
+        parses = [t for t in it.trace if t[0] == "parse"]
+        seq = [tname.get(id(t[1]), "?") for t in parses]
+        if not parses:
+            raise AnalysisError("the simulation of MapList.__init__ never reaches MapItem.parse (an opaque value decides the parse loop)")
+        ctx.check("parse-order", inst, seq == expected, init, "parse order for map order %s%s" % ("/".join(pn), scenario),
+                  "a map list listing its entries as %s%s is parsed in the order %s; load order (and every other permutation) requires %s "
+                  "-- the parse order is not a function of the set of entries" % (pn, scenario, seq, expected),
+                  detail="parsed as %s" % seq)
+        # registration: after parse(entry), before the next parse, add_type_item(type of entry, entry, ...)
+        pos = [i for i, t in enumerate(it.trace) if t[0] == "parse"] + [len(it.trace)]
+        for j, pt in enumerate(parses):
+            seg = it.trace[pos[j] + 1: pos[j + 1]]
+            regs = [t for t in seg if t[0] == "cm" and t[1] == cmi.add.name]
+            ent = pt[1]
+            good = len(regs) == 1 and len(regs[0][2]) >= 3 and isinstance(regs[0][2][0], EnumVal) and regs[0][2][0].member == tname[id(ent)] \
+                and regs[0][2][1] is ent
+            if not good and regs and not all(isinstance(r_[2][0], EnumVal) for r_ in regs if r_[2]):
+                raise AnalysisError("registration type of a parsed entry evaluates to an opaque term: %s" % show(regs[0][2])[:100])
+            ctx.check("registration", "%s: %s" % (inst, tname[id(ent)]), good, init, "registration of the %s entry" % tname[id(ent)],
+                      "after parsing the %s entry MapList.__init__ registers %s; it must register that entry once under its own type before the next entry is parsed" % (
+                          tname[id(ent)], [(show(r_[2][0]) if r_[2] else "?") for r_ in regs] or "nothing"),
+                      detail="add_type_item(%s, entry, item)" % tname[id(ent)])
+            if not isolation:
+                continue
+            # state of the entry at its parse: a function of its own bytes only
+            snap = {a_: _norm_value(v_, start[id(ent)], st.base) for a_, v_ in pt[2].items()}
+            key = tname[id(ent)]
+            if key not in snapshots:
+                snapshots[key] = (snap, inst)
+            else:
+                ref, ref_inst = snapshots[key]
+                for a_ in sorted(set(ref) | set(snap)):
+                    if ref.get(a_) != snap.get(a_):
+                        ctx.check("entry-isolation", "%s.%s" % (key, a_), False, init, "MapItem.%s depends on the map order" % a_,
+                                  "when its parse() starts, attribute %s of the %s entry is %s with %s but %s with %s: the entry's state "
+                                  "depends on its position / neighbours in the map list, not only on its own fields" % (
+                                      a_, key, snap.get(a_), inst, ref.get(a_), ref_inst))
+
+    for ti, triple in enumerate(picks):
         if len({int(t) for t in triple}) < 3:
             continue
         expected = [names[int(t)] for t in sorted(triple, key=lambda t: order[t])]
-        for perm in itertools.permutations(triple):
-            asg0 = {}
-            for i in range(32):
-                asg0[("s", i // 8, i % 8)] = (3 >> i) & 1 if i < 32 else 0
-            for k, t in enumerate(perm):
-                for i in range(16):
-                    asg0[("s", 4 + stride * k + i // 8, i % 8)] = (int(t) >> i) & 1
-
-            def run(asg, asg0=asg0):
-                it = _SimInterp(repo, folder, asg={**asg0, **asg}, construct=lambda c: c.name == "MapItem", inline_module=m,
-                                order=order, enum_cls=cmi.enum_cls, order_func=ford.name, parse_name=parse.name)
-                st = StreamV("buff", index=0)
-                o = Obj(ml, "maplist")
-                args = []
-                for p in init.params()[1:]:
-                    args.append(Sym("cm") if p in ("cm",) else st if p in ("buff", "buf") else 0 if p in ("off", "offset") else Sym("param", p))
-                it.call_function(init, args, recv=o)
-                return it, o, st
-
-            for asg, r in explore(run, max_paths=64):
-                if isinstance(r, Raised):
-                    raise AnalysisError("MapList.__init__ raises on a three-entry map list (%s): %s" % ([names[int(t)] for t in perm], r))
-                it, o, st = r
-                n_runs += 1
-                entries = [x for c, x, a in it.new_log if c.name == "MapItem"]
-                if len(entries) != 3:
-                    raise AnalysisError("MapList.__init__ builds %d MapItems for a map list of three entries (shape outside the fragment)" % len(entries))
-                start = {id(x): 4 + stride * k for k, x in enumerate(entries)}
-                tname = {}
-                for x in entries:
-                    ty = [v for v in x.attrs.values() if isinstance(v, EnumVal) and v.enum == cmi.enum_cls.name]
-                    if len(ty) != 1:
-                        raise AnalysisError("MapItem: the attribute holding the entry's type was not identified in the simulation")
-                    tname[id(x)] = ty[0].member
-                for a_, v_ in o.attrs.items():
-                    if isinstance(v_, list) and len(v_) == 3 and all(any(x is y for y in entries) for x in v_):
-                        lst_attrs.add(a_)
-                parses = [t for t in it.trace if t[0] == "parse"]
-                seq = [tname.get(id(t[1]), "?") for t in parses]
-                if not parses:
-                    raise AnalysisError("the simulation of MapList.__init__ never reaches MapItem.parse (an opaque value decides the parse loop)")
-                inst = "map list order %s" % [names[int(t)] for t in perm]
-                ctx.check("parse-order", inst, seq == expected, init, "parse order for map order %s" % "/".join(names[int(t)] for t in perm),
-                          "a map list listing its entries as %s is parsed in the order %s; load order (and every other permutation) requires %s "
-                          "-- parse order follows the map list" % ([names[int(t)] for t in perm], seq, expected),
-                          detail="parsed as %s" % seq)
-                # registration: after parse(entry), before the next parse, add_type_item(type of entry, entry, ...)
-                pos = [i for i, t in enumerate(it.trace) if t[0] == "parse"] + [len(it.trace)]
-                for j, pt in enumerate(parses):
-                    seg = it.trace[pos[j] + 1: pos[j + 1]]
-                    regs = [t for t in seg if t[0] == "cm" and t[1] == cmi.add.name]
-                    ent = pt[1]
-                    good = len(regs) == 1 and len(regs[0][2]) >= 3 and isinstance(regs[0][2][0], EnumVal) and regs[0][2][0].member == tname[id(ent)] \
-                        and regs[0][2][1] is ent
-                    if not good and regs and not all(isinstance(r_[2][0], EnumVal) for r_ in regs if r_[2]):
-                        raise AnalysisError("registration type of a parsed entry evaluates to an opaque term: %s" % show(regs[0][2])[:100])
-                    ctx.check("registration", "%s: %s" % (inst, tname[id(ent)]), good, init, "registration of the %s entry" % tname[id(ent)],
-                              "after parsing the %s entry MapList.__init__ registers %s; it must register that entry once under its own type before the next entry is parsed" % (
-                                  tname[id(ent)], [(show(r_[2][0]) if r_[2] else "?") for r_ in regs] or "nothing"),
-                              detail="add_type_item(%s, entry, item)" % tname[id(ent)])
-                    # state of the entry at its parse: a function of its own bytes only
-                    snap = {a_: _norm_value(v_, start[id(ent)], st.base) for a_, v_ in pt[2].items()}
-                    key = tname[id(ent)]
-                    if key not in snapshots:
-                        snapshots[key] = (snap, inst)
-                    else:
-                        ref, ref_inst = snapshots[key]
-                        for a_ in sorted(set(ref) | set(snap)):
-                            if ref.get(a_) != snap.get(a_):
-                                ctx.check("entry-isolation", "%s.%s" % (key, a_), False, init, "MapItem.%s depends on the map order" % a_,
-                                          "when its parse() starts, attribute %s of the %s entry is %s with %s but %s with %s: the entry's state "
-                                          "depends on its position / neighbours in the map list, not only on its own fields" % (
-                                              a_, key, snap.get(a_), inst, ref.get(a_), ref_inst))
-                ctx.count("simulated_orders")
+        perms = list(itertools.permutations(triple))
+        for perm in perms:
+            # a file that is larger than the map list, and (dx layout) a file that ends with its map list
+            for file_size, scenario in ((4096, ""), (end_of_map, " at the very end of the file")):
+                if scenario and ti > 0:
+                    continue
+                for res in construct(perm, file_size, {}):
+                    judge(res, perm, expected, scenario, isolation=not scenario)
+                    ctx.count("simulated_orders")
+        if ti == 0:
+            # history: two map lists with the same entries in different orders, parsed one after the other in the same process
+            first = perms[0]
+            for other in perms[1:]:
+                for a_, b_ in ((first, other), (other, first)):
+                    state = {}
+                    r1 = construct(a_, 4096, state)
+                    if len(r1) != 1:
+                        raise AnalysisError("MapList.__init__ has several abstract paths on a concrete map list: history scenario not decidable")
+                    for res in construct(b_, 4096, state):
+                        judge(res, b_, expected, " (parsed after a file listing them as %s)" % [names[int(t)] for t in a_], isolation=False)
+                        ctx.count("simulated_histories")
     ctx.ob("entry-isolation", "entry state at parse time", True,
            "identical for every permutation (attributes %s, byte sources re-based to the entry start)" % sorted({a for s_, _ in snapshots.values() for a in s_}))
     if len(lst_attrs) != 1:
@@ -1071,11 +1173,27 @@ def check_seeks(ctx, repo, m, folder, cmi, members):
         it.call_function(init, args, recv=o)
         return st.log
 
-    for asg, log in explore(run2):
+    n_stride_paths = 0
+    stride_results = explore(run2)
+
+    def stride_verdict(log):
+        news_ = [i for i, ev in enumerate(log) if ev[0] == "new" and ev[1] == "MapItem"]
+        if not news_:
+            return None
+        seeks_ = [show(ev[1]) for ev in log[news_[0]:] if ev[0] == "seek"]
+        return (seeks_[-1] if seeks_ else None, tuple([show(ev[1]) for ev in log if ev[0] == "seek"][:1]))
+
+    verdicts = {stride_verdict(lg) for a_, lg in list.__iter__(stride_results) if not isinstance(lg, Raised)} - {None}
+    uniform = len(verdicts) <= 1   # the same on every path: independent of the unevaluated conditions behind the reading loop
+    for asg, log in list.__iter__(stride_results):
+        if hasattr(ctx, "path"):
+            ctx.path(None if uniform else asg)
         if isinstance(log, Raised):
             raise AnalysisError("MapList.__init__ raises on an abstract path: %s" % log)
         news = [i for i, ev in enumerate(log) if ev[0] == "new" and ev[1] == "MapItem"]
-        ctx.require(len(news) >= 1, "MapList.__init__ constructs no MapItem from the stream")
+        if not news:
+            continue   # a path that leaves the reading loop before the first entry (truncation guard)
+        n_stride_paths += 1
         i = news[0]
         tells = [ev for ev in log[:i] if ev[0] in ("tell", "seek", "raw")]
         start = None
@@ -1104,6 +1222,9 @@ def check_seeks(ctx, repo, m, folder, cmi, members):
         good = bool(first) and first[0][1] == Sym("param", init.params()[2]) if len(init.params()) > 2 else False
         ctx.check("entry-stride", "MapList start", good, init, "map list start",
                   "the map list must be read at the offset handed to MapList (header map_off); first seek is %s" % (show(first[0][1]) if first else "missing"))
+    if hasattr(ctx, "path"):
+        ctx.path(None)
+    ctx.require(n_stride_paths > 0, "MapList.__init__ constructs no MapItem from the stream on any abstract path")
     return ctors
 
 
